@@ -397,6 +397,90 @@ func c13Tombstones(p *an.Prog, r *an.R, fd *an.DeclInfo, ft, corf *types.Var) {
 			r.Check(guarded, "C13.R3", "index.(*Builder).Finish/delta/file-tombstones-replaced-only-when-nil", as.Pos(), "the tombstone set is allocated only when absent", "Finish replaces an older shard's FileTombstones without it being nil: tombstones recorded by earlier delta builds are dropped and the files they hid resurface")
 		}
 	}
+	// helper that mutates the record in place: h(X, corf) whose body stores every element of its list parameter
+	// into <record parameter>.FileTombstones and replaces that map only when it is nil
+	ast.Inspect(fd.Decl.Body, func(n ast.Node) bool {
+		c, ok := n.(*ast.CallExpr)
+		if !ok {
+			return true
+		}
+		h := an.Callee(info, c)
+		if h == nil || h.Pkg() == nil || !an.InModule(h.Pkg()) {
+			return true
+		}
+		li := -1
+		for i, a := range c.Args {
+			if isCorf(a) {
+				li = i
+			}
+		}
+		hd := p.Decl(h)
+		if li < 0 || hd == nil || hd.Decl.Body == nil {
+			return true
+		}
+		hi := hd.Pkg.TypesInfo
+		lp := an.Param(hi, hd.Decl, li)
+		if lp == nil {
+			return true
+		}
+		isHFT := func(e ast.Expr) bool {
+			se, ok := ast.Unparen(e).(*ast.SelectorExpr)
+			return ok && hi.Selections[se] != nil && hi.Selections[se].Obj() == ft
+		}
+		stored, exits := false, false
+		ast.Inspect(hd.Decl.Body, func(m ast.Node) bool {
+			rs, ok := m.(*ast.RangeStmt)
+			if !ok || !isIdentOf(hi, rs.X, lp) || rs.Value == nil {
+				return true
+			}
+			ast.Inspect(rs.Body, func(k ast.Node) bool {
+				switch x := k.(type) {
+				case *ast.BranchStmt, *ast.ReturnStmt:
+					exits = true
+				case *ast.AssignStmt:
+					if ix, ok := ast.Unparen(x.Lhs[0]).(*ast.IndexExpr); ok && isHFT(ix.X) && isIdentOf(hi, ix.Index, hi.ObjectOf(rs.Value.(*ast.Ident))) {
+						stored = true
+					}
+				}
+				return true
+			})
+			return true
+		})
+		if !stored || exits {
+			return true
+		}
+		// whole-map assignments inside the helper only under == nil
+		hg := an.NewG(hi, hd.Decl.Body)
+		okNil := true
+		for _, l := range hg.Locs(func(ast.Node) bool { return true }) {
+			as, ok := hg.Node(l).(*ast.AssignStmt)
+			if !ok {
+				continue
+			}
+			for _, lhs := range as.Lhs {
+				if !isHFT(lhs) {
+					continue
+				}
+				g2 := hg.GuardedBy(l, func(cond ast.Expr, truth bool) bool {
+					be, ok := ast.Unparen(cond).(*ast.BinaryExpr)
+					if !ok {
+						return false
+					}
+					if (isHFT(be.X) && hi.Types[be.Y].IsNil()) || (isHFT(be.Y) && hi.Types[be.X].IsNil()) {
+						return (be.Op == token.EQL && truth) || (be.Op == token.NEQ && !truth)
+					}
+					return false
+				}, nil)
+				if !g2 {
+					okNil = false
+				}
+			}
+		}
+		r.Fn(an.FuncName(h))
+		r.Check(okNil, "C13.R3", an.FuncName(h)+"/file-tombstones-replaced-only-when-nil", hd.Decl.Pos(), "the tombstone set is allocated only when absent", "the helper replaces the older shard's FileTombstones without it being nil: tombstones recorded by earlier delta builds are dropped")
+		viaHelper++
+		return true
+	})
 	r.Check(inline+viaHelper >= 1, "C13.R3", key, fd.Decl.Pos(), "every changed-or-removed path is recorded in the older shard's FileTombstones", "Finish does not record every changedOrRemovedFiles entry in the older shards' FileTombstones: the old copy of a changed or deleted file stays visible next to (or instead of) the new one")
 }
 
